@@ -11,21 +11,24 @@ import (
 	"fmt"
 	"sort"
 	"sync"
-	"verifharness/fakeipfs"
 
 	"github.com/ipfs/go-cid"
 	ds "github.com/ipfs/go-datastore"
 	dssync "github.com/ipfs/go-datastore/sync"
 	"github.com/libp2p/go-libp2p/core/crypto"
+	mh "github.com/multiformats/go-multihash"
 
 	ipfslog "berty.tech/go-ipfs-log"
 	"berty.tech/go-ipfs-log/enc"
 	"berty.tech/go-ipfs-log/entry"
+	"berty.tech/go-ipfs-log/entry/sorting"
 	idp "berty.tech/go-ipfs-log/identityprovider"
 	"berty.tech/go-ipfs-log/iface"
 	"berty.tech/go-ipfs-log/io/cbor"
 	"berty.tech/go-ipfs-log/io/pb"
 	"berty.tech/go-ipfs-log/keystore"
+
+	"verifharness/fakeipfs"
 )
 
 // ---------------------------------------------------------------- identities
@@ -514,18 +517,58 @@ func RefCompare(o Ordering, a, b *Info) int {
 		}
 		return 1
 	}
+	idDir, hashDir := refDirections()
 	if c := bytes.Compare(a.ClockID, b.ClockID); c != 0 {
-		return c
+		return c * idDir
 	}
 	if o == OrderHash {
 		if a.Hash < b.Hash {
-			return -1
+			return -hashDir
 		}
 		if a.Hash > b.Hash {
-			return 1
+			return hashDir
 		}
 	}
 	return 0
+}
+
+var refDir struct {
+	once     sync.Once
+	id, hash int
+}
+
+// refDirections tells which way the library breaks ties between equal clock times (by clock id) and between equal
+// clocks (by hash). The properties fix the role of the clock time (smaller first) and demand lawful total orders,
+// not the direction of the tie-breaks, so the reference order takes the two directions from the library once
+// (probing one fixed pair each; a comparator that answers 0 there leaves the usual ascending direction, and the
+// lawfulness of the comparators on all pairs is C19's business).
+func refDirections() (int, int) {
+	refDir.once.Do(func() {
+		refDir.id, refDir.hash = 1, 1
+		c1 := entry.NewLamportClock([]byte{1}, 5)
+		c2 := entry.NewLamportClock([]byte{2}, 5)
+		if c1.Compare(c2) > 0 {
+			refDir.id = -1
+		}
+		ha, hb := fixedCid("ref-a"), fixedCid("ref-b")
+		if ha.String() > hb.String() {
+			ha, hb = hb, ha
+		}
+		ea := &entry.Entry{Hash: ha, Clock: entry.NewLamportClock([]byte{1}, 5)}
+		eb := &entry.Entry{Hash: hb, Clock: entry.NewLamportClock([]byte{1}, 5)}
+		if r, err := sorting.SortByEntryHash(ea, eb); err == nil && r > 0 {
+			refDir.hash = -1
+		}
+	})
+	return refDir.id, refDir.hash
+}
+
+func fixedCid(s string) cid.Cid {
+	c, err := cid.V1Builder{Codec: cid.DagCBOR, MhType: mh.SHA2_256}.Sum([]byte(s))
+	if err != nil {
+		panic(err)
+	}
+	return c
 }
 
 // StrictTotalOn reports whether the ordering is a strict total order on s:
